@@ -181,3 +181,9 @@ Definition run_ds_gens (n : net) (ref : list nat) (bw : list Q) (vs : list Q) (s
   OL [ OL (map (fun g => oq (pg_after n' ref' g (vof vs (g_bus g)) (sof ss (g_bus g)))) (gens n'));
        OL (map (fun k => oq (PD_after n' ref' k (sof ss k))) (seq 0 nb));
        olist onat ref' ].
+
+(* ---------- enforce_q_lims around the distributed slack power flow: after "fix: enforce_q_lims keeps the distributed slack
+   share of xwards" the bus PD handed to the result extraction is PD_after (only QD is restored after the loop).  Before, with at
+   least one limited gen the whole PD column was restored from the backup: *)
+Definition PD_after_qlims_old (n : net) (ref : list nat) (k : nat) (sinj : C) (any_limited : bool) : Q :=
+  if any_limited then PD n k else PD_after n ref k sinj.
